@@ -3,6 +3,7 @@ import os, re, subprocess, collections, json
 from concurrent.futures import ThreadPoolExecutor
 import common
 
+UNSAFE_OPS = {'adv', 'poke', 'pokeinit', 'edit', 'setindex', 'goback'}
 CA_RE = re.compile(r' \| ca=[^ |]*')
 
 class Div:
@@ -82,6 +83,7 @@ class Stats:
         self.histories = 0; self.steps = 0; self.ops = collections.Counter(); self.results = collections.Counter()
         self.lens = collections.Counter(); self.variants = collections.Counter(); self.distinct = set()
         self.contract_steps = 0; self.offcontract_steps = 0; self.samples = []; self.seam = 0; self.owned_hist = 0
+        self.safe_breaks = {}
     def summary(self):
         refused = self.results['none'] + self.results['err']
         return {
@@ -119,6 +121,7 @@ def compare_shard(suite, shard, outs, stats, divs, maxdiv=200, collect=None, sat
         if len(stats.samples) < 3: stats.samples.append({'cfg': cfg, 'ops': ops[:12]})
         broken = False
         nspec = 0
+        was_ok = True
         prev = ''
         got = []
         if collect is not None: collect.append((header, cfg, ops, got))
@@ -140,7 +143,14 @@ def compare_shard(suite, shard, outs, stats, divs, maxdiv=200, collect=None, sat
                     parts = m.split(' | ')[0].split(' ')
                     if len(parts) >= 4 and parts[3] != '[]': stats.seam += 1
                 if s.startswith('+'): stats.contract_steps += 1
-                else: stats.offcontract_steps += 1
+                else:
+                    stats.offcontract_steps += 1
+                    if was_ok and opn not in UNSAFE_OPS:
+                        # a *safe* method whose contract (on the Spec state) does not hold here
+                        w = ops[idx].split()
+                        key = f'safe-op/{opn}-{w[1] if len(w) > 1 else ""}'
+                        stats.safe_breaks.setdefault(key, []).append((header, cfg, ops[:idx + 1]))
+                was_ok = s.startswith('+')
             prev = CA_RE.sub('', m.split(' | ev=')[0]).split(' | ', 1)[-1]
             if m != i and not broken:
                 broken = True
